@@ -564,6 +564,65 @@ def task_admission(cfgs):
     return {'viol': [v.to_json() for v in out[:6]], 'n': n}
 
 
+# ---- DBUS_COOKIE_SHA1: cookies that are old or dated in the future -------------------------------------------------------
+
+NOW_REAL = 601000000          # harness/vauth's virtual wall clock, seconds
+COOKIE_AGES = [-10 * 365 * 86400, -86400, -3600, 3600, 86400, 10 * 365 * 86400]
+
+
+def task_cookie_age(deltas):
+    """The specification asks the server to delete cookies that are old or 'more than a reasonable time in the future' when it
+    loads the keyring.  A planted cookie dated an hour or more away from now (either way) must be neither offered in a
+    challenge nor accepted, and must be gone from the keyring file afterwards."""
+    import hashlib
+    out = []
+    n = 0
+    for delta in deltas:
+        case = {'cookie_age': delta}
+        try:
+            h = worker_harness('vauth', args=[])
+            if h.proc is not None:
+                h.restart()
+            else:
+                h.start()
+            kd = os.path.join(h.rundir, '.dbus-keyrings')
+            os.makedirs(kd, mode=0o700, exist_ok=True)
+            os.chmod(kd, 0o700)
+            planted = b'c0ffee' * 8
+            with open(os.path.join(kd, 'org_freedesktop_general'), 'w') as f:
+                f.write('4242 %d %s\n' % (NOW_REAL + delta, planted.decode()))
+            os.chmod(os.path.join(kd, 'org_freedesktop_general'), 0o600)
+            r = h.cmd('NEW 0 DBUS_COOKIE_SHA1 1')
+            if not r.startswith('OK'):
+                out.append(Violation('harness', 'cookie-age', r[:200], case))
+                continue
+            r = h.cmd('FEED ' + (b'AUTH DBUS_COOKIE_SHA1 ' + hx(b'root') + b'\r\n').hex())
+            kv = parse_kv(r)
+            sent = bytes.fromhex(kv.get('out', '')) if kv.get('out', '-') not in ('-', '') else b''
+            n += 1
+            if not sent.startswith(b'DATA '):
+                out.append(Violation('response', 'cookie-age', 'AUTH DBUS_COOKIE_SHA1 for root answered %r' % sent, case))
+                continue
+            ctxname, cid, sch = bytes.fromhex(sent[5:].strip().decode()).split(b' ')
+            if cid == b'4242':
+                out.append(Violation('response', 'cookie-age:offered', 'the server challenges with a keyring cookie dated %+d s from now' % delta, case))
+                continue
+            # answering with the planted cookie under its own id must not work either
+            cch = b'636c69656e74'
+            resp = hashlib.sha1(sch + b':' + cch + b':' + planted).hexdigest().encode()
+            r = h.cmd('FEED ' + (b'DATA ' + hx(cch + b' ' + resp) + b'\r\n').hex())
+            kv = parse_kv(r)
+            sent = bytes.fromhex(kv.get('out', '')) if kv.get('out', '-') not in ('-', '') else b''
+            if sent.startswith(b'OK'):
+                out.append(Violation('response', 'cookie-age:accepted', 'a response computed from a cookie dated %+d s from now was accepted' % delta, case))
+            left = open(os.path.join(kd, 'org_freedesktop_general')).read()
+            if '4242 ' in left:
+                out.append(Violation('stale-cookie-kept', 'cookie-age', 'the keyring still holds the cookie dated %+d s from now after it was loaded: %r' % (delta, left[:200]), case))
+        except HarnessDied as e:
+            out.append(crash_violation(e, case))
+    return {'viol': [v.to_json() for v in out], 'n': n}
+
+
 TCP_IDENTITIES = ['', '0', '1000', '65534', '4294967294', '4294967295', '18446744073709551615', '-1']
 
 
@@ -656,6 +715,11 @@ def run(ctx):
                 continue
             ctx.add_violations(r['viol'])
             ntcp += r['n']
+        for r in pool.imap(task_cookie_age, [[d] for d in COOKIE_AGES]):
+            if '__crash__' in r:
+                ctx.add_violation(Violation('crash', r['__crash__'], r['stderr'], {'task': r['task']}))
+                continue
+            ctx.add_violations(r['viol'])
         acfg = admission_configs()
         nadm = 0
         for r in pool.imap(task_admission, [acfg[i:i + 12] for i in range(0, len(acfg), 12)]):
@@ -685,6 +749,8 @@ def run(ctx):
 
 
 def replay(case):
+    if 'cookie_age' in case:
+        return [Violation.from_json(v) for v in task_cookie_age([case['cookie_age']])['viol']]
     if 'admission' in case:
         return [Violation.from_json(v) for v in task_admission([[tuple(r) for r in case['admission'][0]]])['viol']]
     if 'tcp' in case:
